@@ -586,9 +586,116 @@ def t_builtin_discipline(tr: Tr, tier: str):
     return f"{len(table)} builtins' arity/force table; {cnt} partial-application states over {len(reps)} (arity,forces) classes"
 
 
+def t_discharge(tr0: Tr, depth_env=2):
+    """read-back (dischargeCekValue): a value is printed as the term obtained by substituting the captured environment
+    for the free variables of its body, under any number of binders and inside every term constructor."""
+    w = tr0.w
+    tr = Tr(w, "quick", real_discharge=True)
+    ex = tr.ex
+    f_vat = w.fn(None, "value_as_term")
+    K = lambda i: w.adt("Constant", "Integer", BigI(z3.IntVal(1000 + i)))  # noqa: E731  distinguishable constants
+
+    def var(i):
+        return w.adt("Term", "Var", tr.rc(w.adt("NamedDeBruijn", None, text=fresh_obj("x"), index=w.adt("DeBruijn", None, ex.mk_int(i, 64, False)))))
+
+    def shapes(i, j):
+        lam = lambda b: w.adt("Term", "Lambda", parameter_name=tr.rc(fresh_obj("p")), body=tr.rc(b))  # noqa: E731
+        return {
+            "var": var(i),
+            "lam(var)": lam(var(i)),
+            "lam(lam(var))": lam(lam(var(i))),
+            "apply": w.adt("Term", "Apply", function=tr.rc(var(i)), argument=tr.rc(var(j))),
+            "delay": w.adt("Term", "Delay", tr.rc(var(i))),
+            "force": w.adt("Term", "Force", tr.rc(var(i))),
+            "constr": w.adt("Term", "Constr", tag=ex.mk_int(3, 64, False), fields=VecV(Arr((var(i), var(j))))),
+            "case": w.adt("Term", "Case", constr=tr.rc(var(i)), branches=VecV(Arr((var(j), lam(var(i)))))),
+            "lam(constr)": lam(w.adt("Term", "Constr", tag=ex.mk_int(0, 64, False), fields=VecV(Arr((var(i),))))),
+        }
+
+    def subst(t, lam_cnt, envvals):
+        """specification: substitute env (innermost last) into t under lam_cnt binders"""
+        v = t.variant
+        if v == "Var":
+            nm = t.fields[0].inner
+            idx = z3.simplify(w.get(nm, "index").fields[0].e).as_long()
+            if idx <= lam_cnt:
+                return t
+            k = idx - lam_cnt
+            if 1 <= k <= len(envvals):
+                return w.adt("Term", "Constant", tr.rc(envvals[len(envvals) - k]))
+            return t
+        if v == "Lambda":
+            return Adt("Term", "Lambda", (t.fields[0], tr.rc(subst(t.fields[1].inner, lam_cnt + 1, envvals))))
+        if v in ("Delay", "Force"):
+            return Adt("Term", v, (tr.rc(subst(t.fields[0].inner, lam_cnt, envvals)),))
+        if v == "Apply":
+            return Adt("Term", "Apply", (tr.rc(subst(t.fields[0].inner, lam_cnt, envvals)), tr.rc(subst(t.fields[1].inner, lam_cnt, envvals))))
+        if v == "Constr":
+            tagf, fs = t.fields
+            return Adt("Term", "Constr", (tagf, VecV(Arr(tuple(subst(x, lam_cnt, envvals) for x in fs.items.elems)))))
+        if v == "Case":
+            c, bs = t.fields
+            return Adt("Term", "Case", (tr.rc(subst(c.inner, lam_cnt, envvals)), VecV(Arr(tuple(subst(x, lam_cnt, envvals) for x in bs.items.elems)))))
+        return t
+
+    cnt = 0
+    for nenv in range(0, depth_env + 1):
+        consts = [K(i) for i in range(nenv)]
+        env = BoxV(VecV(Arr(tuple(w.con(c) for c in consts))), "Rc")
+        for i in range(0, nenv + 3):
+            for j in sorted({1, nenv}):
+                for name, body in shapes(i, j).items():
+                    for wrap in ("Delay", "Lambda"):
+                        if wrap == "Delay":
+                            val = w.adt("Value", "Delay", tr.rc(body), env)
+                            want = Adt("Term", "Delay", (tr.rc(subst(body, 0, consts)),))
+                        else:
+                            pn = w.adt("NamedDeBruijn", None, text=fresh_obj("ptext"), index=w.adt("DeBruijn", None, ex.mk_int(0, 64, False)))
+                            val = w.adt("Value", "Lambda", parameter_name=tr.rc(pn), body=tr.rc(body), env=env)
+                            want = None
+                            want_body = subst(body, 1, consts)
+                        st = ex.new_state()
+                        outs = only_outcome(ex.run(f_vat, [val], st), "discharge")
+                        if len(outs) != 1 or outs[0].kind != "return":
+                            kinds = [(o.kind, o.msg) for o in outs]
+                            if any(k == "panic" for k, _ in kinds):
+                                raise Fail(f"read-back panics for body {name} (index {i}, env size {nenv}): {kinds}", None, "discharge panic")
+                            raise Unsupported(f"discharge: {kinds}")
+                        got = outs[0].value
+                        if wrap == "Lambda":
+                            if not (isinstance(got, Adt) and got.variant == "Lambda"):
+                                raise Fail(f"read-back of a closure is not a lambda: {got!r}"[:200], None, "discharge lambda shape")
+                            got_cmp, want_cmp = got.fields[1], tr.rc(want_body)
+                        else:
+                            got_cmp, want_cmp = got, want
+                        e = seq(tr, got_cmp, want_cmp)
+                        if tr.ex.check([], z3.Not(e)) != "unsat":
+                            raise Fail(f"read-back of ({wrap.lower()} {name}) with variable index {i}/{j} and {nenv} captured value(s) is not the substituted term: "
+                                       f"got {got_cmp!r}"[:500], {"body": name, "index": i, "env": nenv, "wrap": wrap}, f"discharge {name}")
+                        cnt += 1
+    # builtin / constr values
+    a0, a1 = w.con(K(7)), w.con(K(8))
+    rt = w.adt("BuiltinRuntime", None, args=VecV(Arr((a0, a1))), fun=Adt("DefaultFunction", "IfThenElse", ()), forces=ex.mk_int(1, 32, False))
+    val = w.adt("Value", "Builtin", fun=Adt("DefaultFunction", "IfThenElse", ()), runtime=rt)
+    (o,) = only_outcome(ex.run(f_vat, [val], ex.new_state()), "discharge/builtin")
+    b = w.adt("Term", "Force", tr.rc(w.adt("Term", "Builtin", Adt("DefaultFunction", "IfThenElse", ()))))
+    want = w.adt("Term", "Apply", function=tr.rc(w.adt("Term", "Apply", function=tr.rc(b), argument=tr.rc(w.adt("Term", "Constant", tr.rc(K(7)))))),
+                 argument=tr.rc(w.adt("Term", "Constant", tr.rc(K(8)))))
+    if tr.ex.check([], z3.Not(seq(tr, o.value, want))) != "unsat":
+        raise Fail(f"read-back of a partial builtin application: got {o.value!r}"[:400], None, "discharge builtin")
+    val = w.adt("Value", "Constr", tag=ex.mk_int(5, 64, False), fields=VecV(Arr((a0, a1))))
+    (o,) = only_outcome(ex.run(f_vat, [val], ex.new_state()), "discharge/constr")
+    want = w.adt("Term", "Constr", tag=ex.mk_int(5, 64, False), fields=VecV(Arr((w.adt("Term", "Constant", tr.rc(K(7))), w.adt("Term", "Constant", tr.rc(K(8)))))))
+    if tr.ex.check([], z3.Not(seq(tr, o.value, want))) != "unsat":
+        raise Fail(f"read-back of a constructor value: got {o.value!r}"[:400], None, "discharge constr")
+    tr0.ex.queries += tr.ex.queries
+    tr0.ex.encoded.update(tr.ex.encoded)
+    return f"{cnt + 2} value shapes (9 body shapes x 2 binders x indices 0..env+2 x env sizes 0..{depth_env})"
+
+
 TRACES = {
     "var": t_var, "simple": t_simple, "apply": t_apply_lambda, "force": t_force, "constr": t_constr,
-    "case-constr": t_case_constr, "case-const": t_case_const, "done": t_done,
+    "case-constr": t_case_constr, "case-const": t_case_const, "done": t_done, "discharge": t_discharge,
 }
 
 
